@@ -12,6 +12,10 @@ package trackerdb
 //   res   <isAsset 0|1> <isApp 0|1> <addr32> <cidx> <updateRound> <enc>     → leaf | err
 //   kv    <key> <value>
 //   boxkv <app> <name> <value>                                            → <key> <leaf>
+//   sw    <acct|asset|app|kv> <seed> <len> <mut|->                         → leaf
+// `sw` (length sweep): the builder's arguments are expanded from (seed, len) by verifC15SweepInput — a
+// 32-byte address, a creatable index, an update round and `len` encoded bytes; `mut` = position of ONE
+// encoded byte that is xor-ed with 0x5a ("-" = none).  Same expansion in lean/AlgoVerif/Driver/C15.lean.
 // `enc` is the encoded record handed to the builder.  When it decodes to a record whose relevant fields
 // (UpdateRound/RewardsBase, resp. IsAsset/IsApp) agree with the op line the decoded record is the one passed
 // to the builder (the callers' situation); otherwise a record carrying only those fields is passed (the
@@ -90,6 +94,30 @@ func verifC15Exec(op string) string {
 			return verifC15Hex(h)
 		case "kv":
 			return verifC15Hex(KvHashBuilderV6(string(verifC15Unhex(f[1])), verifC15Unhex(f[2])))
+		case "sw":
+			seed, n := vh.U(f[2]), int(vh.U(f[3]))
+			addr, cidx, ur, enc, ok := verifC15SweepInput(seed, n, f[4])
+			if !ok {
+				return "bad-op"
+			}
+			switch f[1] {
+			case "acct":
+				ad := BaseAccountData{UpdateRound: ur}
+				return verifC15Hex(AccountHashBuilderV6(addr, &ad, enc))
+			case "asset", "app":
+				rd := ResourcesData{ResourceFlags: ResourceFlagsEmptyAsset}
+				if f[1] == "app" {
+					rd.ResourceFlags = ResourceFlagsEmptyApp
+				}
+				h, err := ResourcesHashBuilderV6(&rd, addr, basics.CreatableIndex(cidx), ur, enc)
+				if err != nil {
+					return "err"
+				}
+				return verifC15Hex(h)
+			case "kv":
+				return verifC15Hex(KvHashBuilderV6(apps.MakeBoxKey(seed, "swp!"), enc))
+			}
+			return "bad-op"
 		case "boxkv":
 			key := apps.MakeBoxKey(vh.U(f[1]), string(verifC15Unhex(f[2])))
 			return verifC15Hex([]byte(key)) + " " + verifC15Hex(KvHashBuilderV6(key, verifC15Unhex(f[3])))
@@ -280,6 +308,145 @@ func verifC15Flip(r *vh.Rng, b []byte) []byte {
 	return c
 }
 
+// verifC15SweepInput expands a sweep op: addr[j] = seed*7+13j+1, cidx = seed*65536+len, updateRound = seed%1000+1,
+// enc[i] = seed + 131 i + 17 (i/256)  (all mod 256); mut = index of the byte xor-ed with 0x5a.
+func verifC15SweepInput(seed uint64, n int, mut string) (addr basics.Address, cidx, ur uint64, enc []byte, ok bool) {
+	if seed >= 1<<31 || n < 0 || n > 1<<20 {
+		return
+	}
+	for j := range addr {
+		addr[j] = byte(seed*7 + uint64(j)*13 + 1)
+	}
+	cidx, ur = seed*65536+uint64(n), seed%1000+1
+	enc = make([]byte, n)
+	for i := range enc {
+		enc[i] = byte(seed + 131*uint64(i) + 17*uint64(i/256))
+	}
+	if mut != "-" {
+		m := vh.U(mut)
+		if m >= uint64(n) {
+			return
+		}
+		enc[m] ^= 0x5a
+	}
+	ok = true
+	return
+}
+
+// verifC15SweepSizes: buffer-size neighbourhoods (powers of two and the common scratch sizes, ±41 = header of
+// the resource pre-image + 1).
+func verifC15SweepCenters() []int {
+	return []int{32, 64, 128, 256, 512, 1024, 2048, 4096}
+}
+
+// verifC15SweepGenerate: every encoded length 0..4200 through every builder (base + mutations in the tail),
+// and EVERY position of the last 48 bytes (plus a few positions elsewhere) around the buffer sizes.
+func verifC15SweepGenerate() []string {
+	var ops []string
+	seed := vh.Seed()%1000 + 1
+	add := func(kind string, n int, mut int) {
+		m := "-"
+		if mut >= 0 {
+			m = fmt.Sprint(mut)
+		}
+		ops = append(ops, fmt.Sprintf("sw %s %d %d %s", kind, seed, n, m))
+	}
+	tail := 8
+	if vh.Thorough() {
+		tail = 64
+	}
+	for n := 0; n <= 4200; n++ {
+		rk := []string{"asset", "app"}[n%2]
+		add(rk, n, -1)
+		add("acct", n, -1)
+		add("kv", n, -1)
+		if n == 0 {
+			continue
+		}
+		add(rk, n, n-1)
+		add("acct", n, n-1)
+		add("kv", n, n-1)
+		for d := 2; d <= tail && d <= n; d++ { // further tail positions (all of the last `tail` bytes in thorough)
+			if vh.Thorough() || d == 2+n%47 || d == 40 || d == 41 {
+				add(rk, n, n-d)
+			}
+		}
+		if n > 100 {
+			add(rk, n, (n*7)%(n-64)) // somewhere in the body
+			add(rk, n, 0)
+		}
+	}
+	for _, c := range verifC15SweepCenters() {
+		for n := c - 41; n <= c+41; n++ {
+			if n <= 0 {
+				continue
+			}
+			for d := 1; d <= 48 && d <= n; d++ {
+				add("asset", n, n-d)
+				add("app", n, n-d)
+				if d <= 4 || d%8 == 0 {
+					add("acct", n, n-d)
+					add("kv", n, n-d)
+				}
+			}
+		}
+	}
+	return ops
+}
+
+// verifC15BigApp: a real application-params row (approval program + global state) whose msgpack encoding is
+// about `target` bytes; `owner` is the value of the lexicographically last global key.
+func verifC15BigApp(r *vh.Rng, target int, owner []byte, ur uint64, nbs uint64) ResourcesData {
+	p := basics.AppParams{ClearStateProgram: []byte{0x0a, 0x81, 0x01},
+		GlobalState: basics.TealKeyValue{
+			"counter": basics.TealValue{Type: basics.TealUintType, Uint: 7},
+			"owner":   basics.TealValue{Type: basics.TealBytesType, Bytes: string(owner)},
+		}}
+	p.GlobalStateSchema = basics.StateSchema{NumUint: 1, NumByteSlice: nbs}
+	plen := target - 100 - len(owner)
+	if plen < 1 {
+		plen = 1
+	}
+	p.ApprovalProgram = make([]byte, plen)
+	for i := range p.ApprovalProgram {
+		p.ApprovalProgram[i] = byte(0x81 + i%7)
+	}
+	var rd ResourcesData
+	rd.SetAppParams(p, false)
+	rd.UpdateRound = ur
+	return rd
+}
+
+// verifC15BigGenerate: real ~1 KB / ~4 KB application rows, each with siblings that differ only near the END of
+// the encoding (tail of the last global-state value, a schema count, the update round).
+func verifC15BigGenerate(r *vh.Rng) []string {
+	var ops []string
+	targets := []int{500, 900, 960, 984, 985, 990, 1000, 1010, 1020, 1023, 1024, 1025, 1040, 1064, 1100, 2040, 2048, 2090, 4000, 4090, 4096, 4140, 4200}
+	for i := 0; i < vh.Budget(12, 300); i++ {
+		targets = append(targets, 880+r.Intn(240), 3950+r.Intn(300), 400+r.Intn(4000))
+	}
+	for _, t := range targets {
+		owner := r.Bytes(32)
+		ur := 1 + uint64(r.Intn(1<<20))
+		addr, cidx := verifC15RandAddr(r), verifC15Cidx(r)
+		emit := func(rd ResourcesData) {
+			ops = append(ops, verifC15ResOp(rd.IsAsset(), rd.IsApp(), addr, cidx, rd.UpdateRound, protocol.Encode(&rd)))
+		}
+		emit(verifC15BigApp(r, t, owner, ur, 1))
+		o2 := append([]byte{}, owner...)
+		o2[31] ^= 0x01 // last byte of the last global value
+		emit(verifC15BigApp(r, t, o2, ur, 1))
+		o3 := append([]byte{}, owner...)
+		for j := 16; j < 32; j++ {
+			o3[j] = 0xee
+		}
+		emit(verifC15BigApp(r, t, o3, ur, 1))
+		emit(verifC15BigApp(r, t, owner, ur, 2))         // schema count (encoded after the state)
+		emit(verifC15BigApp(r, t, owner, ur+(1<<32), 1)) // update round, same low 32 bits of the affinity
+	}
+	return ops
+}
+
 func verifC15Generate() []string {
 	r := vh.NewRng(vh.Seed())
 	var ops []string
@@ -292,6 +459,9 @@ func verifC15Generate() []string {
 		add(fmt.Sprintf("boxkv %d %s %s", app, verifC15Hex([]byte("abc")), "_"))
 		add(fmt.Sprintf("boxkv %d %s %s", app, "_", verifC15Hex([]byte("abc"))))
 	}
+
+	ops = append(ops, verifC15BigGenerate(r)...)
+	ops = append(ops, verifC15SweepGenerate()...)
 
 	n := vh.Budget(1500, 60000)
 	for i := 0; i < n; i++ {
